@@ -715,8 +715,8 @@ func checkC18(p *Prog, r *Result, tier string) {
 	r.Explanation = "Only the wrapper clauses are decided, not mutual exclusion (that is a property of etcd concurrency.Mutex / redislock and their servers). " +
 		"TL1: every TryLock reaches only the non-blocking primitive (etcd Mutex.TryLock; redislock Obtain with nil options) and never the blocking one. " +
 		"TL2: every Lock calls the blocking primitive under a context derived by context.WithTimeout(ctx, <receiver's timeout field>) and propagates its error; the redis retry strategy is an unbounded, stateless backoff (LinearBackoff/ExponentialBackoff) so that only the wait timeout ends the wait. " +
-		"TL3: every Unlock releases only its own acquisition (etcd: OpDelete only inside Then() of a Txn whose If() is mutex.IsOwner(); redis: Release on the handle stored by this lock's own Obtain; no other delete; no direct redis command anywhere in the wrapper package). TL4: every TTL the wrappers hand to the lock library (Obtain, Refresh, session WithTTL) is the lock's configured TTL."
-	r.NotCovered = "clause 1 (at most one holder over all schedules) — library/server behaviour; fairness; lease expiry timing"
+		"TL3: every Unlock releases only its own acquisition (etcd: OpDelete only inside Then() of a Txn whose If() is mutex.IsOwner(); redis: Release on the handle stored by this lock's own Obtain; no other delete; no direct redis command anywhere in the wrapper package). TL5: every etcd lock is built on a session created for it alone (concurrency.Mutex is re-entrant per session). TL4: every TTL the wrappers hand to the lock library (Obtain, Refresh, session WithTTL) is the lock's configured TTL."
+	r.NotCovered = "clause 1 (at most one holder over all schedules) beyond TL5 — library/server behaviour; fairness; lease expiry timing"
 	r.Assumptions = []string{"A4 etcd concurrency.Mutex and muroq/redislock implement their documented semantics"}
 	_, impls := lockImpls(p, r)
 	r.min("TL1", 2)
@@ -769,6 +769,64 @@ func checkC18(p *Prog, r *Result, tier string) {
 				return true
 			})
 		}
+	}
+	// TL5: every etcd lock lives on a session of its own. concurrency.Mutex identifies its owner by the session's lease and is
+	// re-entrant per session: two locks on one session both "acquire" the same key at once, and the first Unlock deletes the
+	// key under the other. So: NewSession is called once per lock, inside the constructor that also builds the mutex on it,
+	// the session is a local of that constructor, and no constructor takes a session from outside.
+	{
+		r.min("TL5", 1)
+		key := "lock/etcdlock / every lock is built on a session created for it alone"
+		why := ""
+		nNew := 0
+		for _, fn := range p.sortedFuncs("lock/etcdlock", "store/etcdv3/meta") {
+			if fn.Body == nil {
+				continue
+			}
+			rel := relPath(fn.Pkg.PkgPath)
+			if rel != "lock/etcdlock" && rel != "store/etcdv3/meta" {
+				continue
+			}
+			fn.inspectBody(func(n ast.Node) bool {
+				c, ok := n.(*ast.CallExpr)
+				if !ok || fn.Callee(c) == nil {
+					return true
+				}
+				switch fullObjName(fn.Callee(c)) {
+				case "go.etcd.io/etcd/client/v3/concurrency.NewSession":
+					nNew++
+					if rel != "lock/etcdlock" {
+						why = "a session is created at " + p.pos(c) + ", outside the lock constructor: it can be shared by several locks"
+					}
+				case "go.etcd.io/etcd/client/v3/concurrency.NewMutex":
+					// the session argument is a local defined by NewSession in the same function
+					okSess := false
+					if id, ok := unparen(c.Args[0]).(*ast.Ident); ok {
+						o := fn.objOf(id)
+						fn.inspectBody(func(y ast.Node) bool {
+							if as, ok := y.(*ast.AssignStmt); ok && len(as.Rhs) == 1 {
+								if cc, ok := unparen(as.Rhs[0]).(*ast.CallExpr); ok && fn.Callee(cc) != nil && fn.Callee(cc).Name() == "NewSession" {
+									for _, l := range as.Lhs {
+										if fn.objOf(l) == o {
+											okSess = true
+										}
+									}
+								}
+							}
+							return true
+						})
+					}
+					if !okSess {
+						why = "the mutex at " + p.pos(c) + " is built on `" + exprStr(c.Args[0]) + "`, not on a session created in the same constructor: locks that share a session share one owner, so a second Lock/TryLock on a held key succeeds at once and Unlock releases the key under the other holder"
+					}
+				}
+				return true
+			})
+		}
+		if nNew != 1 && why == "" {
+			why = fmt.Sprintf("%d calls of concurrency.NewSession in the lock wrapper and the store (want exactly 1, in the lock constructor)", nNew)
+		}
+		r.check2(why, "TL5", key, "", "NewSession and NewMutex(session, key) in one constructor, session local to it")
 	}
 	prims := map[string]bool{etcdMutexLock: true, etcdMutexTryLock: true, redisObtain: true}
 	for _, nt := range impls {
